@@ -98,7 +98,7 @@ def run(ctx, prop):
     per_kind = {}
     chosen = []
     for c in sorted(rows, key=lambda c: len(c["evs"])):
-        if len(c["evs"]) > (260 if q else 500) or c["kind"] == "quietburst":
+        if len(c["evs"]) > (260 if q else 500) or c["kind"] in ("quietburst", "marathon", "panicmarathon"):
             continue
         per_kind.setdefault(c["kind"], 0)
         if per_kind[c["kind"]] < (8 if q else 60):
